@@ -530,6 +530,7 @@ def jobs(tier):
         J.append(Contenders(sender, 1, k, True, False))
         J.append(Contenders(sender, 0, k + 1, 2, False))
         J.append(Contenders(sender, 1, k, False, True))
+        J.append(Contenders(sender, 0, k, False, True))       # the listener is the only contender: connect() still fails by its deadline
         J.append(Contenders(sender, 2, k, False, False, "syncfail"))
         J.append(Contenders(sender, 1, k - 1, True, True, "early-inbound"))
         J.append(Contenders(sender, 1, k, True, False, "late-bytes"))
